@@ -164,17 +164,25 @@ CHECKS = {
                   "judge + theorem-instance judge",
         design="5/C10"),
     "C11": dict(
-        text="Partial proof: Coq theorems over all inputs: after validation (incl. the new circular-typedef check) every typedef chain of a "
-             "file and its includes resolves within |typedefs|+|files| steps; IsStruct and the Go wire-type classification cannot hit a nil "
-             "dereference or unbounded recursion on validated programs (fully total for single files); every identifier-casing helper returns "
-             "on every grammar identifier; -gen parsing is total and rejects unknown options. Refutation theorems record what was false of the "
-             "pinned code (F10, F11, F15) and what is still false (names of an include's include), with witnesses replayed on the real compiler. "
-             "Well-formedness of the eight generators' output and the diagnostic behaviour of the binary on invalid/mutated/arbitrary text are "
-             "explored on seeded programs, not proved.",
-        note="Model tied to the code by pointwise correspondence every run (helpers reached through compiler/**/verif_c11.go, vm_compute judge on "
-             "parser-produced ASTs). ASCII only; marking loop modelled as |typedefs| passes; parser termination belongs to C10. Java syntax only, Dart "
-             "bracket/quote balance only, Go full type-check against the runtime. 12 unrepaired generator defects listed in known_findings.json.",
-        technique="Coq totality/termination proofs + judge-checked correspondence + seeded compiler exploration with toolchain well-formedness checks",
+        text="Partial proof, including the whole front end between parse and generation. Coq theorems over ALL parse trees and ALL file systems of "
+             "parse results: Frugal.validate and parser.parseFrugal (transcribed with the exact diagnostic texts) return a diagnostic or succeed - no "
+             "panic, no fuel exhaustion - with stated fuel bounds (marking loop <= |typedefs|+1 passes, extends walk <= |services|+1 steps, include "
+             "recursion <= |files|, UnderlyingType <= typedefs+files). After validation every type reference resolves, every typedef chain "
+             "terminates, every extends chain is finite and resolves, every throws type is an exception, field ids/names are distinct, oneway methods "
+             "return/throw nothing, identifier constants exist; IsStruct and the Go wire-type classification cannot hit a nil dereference or "
+             "unbounded recursion on validated programs; every identifier-casing helper returns on every grammar identifier; -gen parsing is total "
+             "and rejects unknown options. Refutation theorems record what was false of the pinned code (F10, F11, F15; dangling/circular extends, "
+             "throws of a non-exception, duplicate names - all repaired) and what is still false (constant values never checked against their type: "
+             "K13; include cycles detected by bare file name: K14; names of an include's include: K1-K3, K9), with witnesses replayed on the real "
+             "compiler. Well-formedness of the eight generators' output and the diagnostic behaviour of the binary on invalid/mutated/arbitrary "
+             "text are explored on seeded programs, not proved.",
+        note="Model tied to the code by correspondence every run: helpers reached through compiler/**/verif_c11.go; every real Frugal.validate call and "
+             "every ParseFrugal result replayed on decoded parser-produced trees (decoder re-encoded and compared), diagnostics compared byte for byte; 75 "
+             "named mutations (valid- and invalid-by-construction) + text mutations; independent Python re-check of the soundness facts on every accepted "
+             "tree. Assumes ASCII names and the grammar's naming guarantees (both shown necessary by a refutation theorem); parser termination belongs to "
+             "C10. Java syntax only, Dart bracket/quote balance only, Go full type-check against the runtime. Unrepaired generator defects listed in known_findings.json.",
+        technique="Coq totality/termination proofs + exact-diagnostic trace validation of the validation pass + judge-checked correspondence + seeded "
+                  "compiler exploration with toolchain well-formedness checks",
         design="5/C11"),
     "C12": dict(
         text="16 Coq theorems (axiom-free) over an executable model of the bounded output buffer, the client prepare/Call/Oneway/Publish paths, "
